@@ -1124,6 +1124,27 @@ fn native_spec() {
                 other => println!("SPEC-REPLAY MISMATCH target=subcommand_dispatch_guard case=p sub: {:?}", other.map(|m| m.subcommand_name().map(|s| s.to_string())).map_err(|e| e.kind())),
             }
         }
+    } else if target == "auto_help_template" {
+        // C12: visible subcommands are listed even when no argument is visible in the mode being rendered
+        for shape in ["no args at all", "only a hide_short_help option", "only a hidden positional"] {
+            let mut cmd = Command::new("p").disable_help_flag(true).disable_help_subcommand(true).subcommand(Command::new("zzsub").about("zzsub about")).subcommand(Command::new("zzother"));
+            cmd = match shape {
+                "only a hide_short_help option" => cmd.arg(Arg::new("o").long("zzopt").action(ArgAction::SetTrue).hide_short_help(true)),
+                "only a hidden positional" => cmd.arg(Arg::new("pos").hide(true)),
+                _ => cmd,
+            };
+            for long in [false, true] {
+                let h = if long { cmd.render_long_help().to_string() } else { cmd.render_help().to_string() };
+                if !h.contains("zzsub") || !h.contains("zzother") {
+                    println!("SPEC-REPLAY MISMATCH target=auto_help_template case={shape}, long_help={long}: visible subcommands are not listed: {:?}", h);
+                }
+            }
+        }
+        // and a command with nothing listable renders just its usage
+        let h = Command::new("bare").disable_help_flag(true).about("zzabout").render_help().to_string();
+        if !h.contains("Usage:") || !h.contains("zzabout") || h.contains("Options:") || h.contains("Commands:") {
+            println!("SPEC-REPLAY MISMATCH target=auto_help_template case=bare command: {:?}", h);
+        }
     } else if target == "match_arg_error" {
         // C10: the error kind names a rule the input really breaks
         for acws in [false, true] {
